@@ -208,6 +208,7 @@ class HasTraitsGetStateFilter(Contract):
     properties = ("C14",)
     class_paths = (PATH,)
     assumptions = ("A-PY", "cut point: the statement that builds the state dictionary; trait_get is used as a summary")
+    undecided_probe = dict(harness="hastraits", family="copy_traits")
 
     @property
     def cid(self):
